@@ -401,7 +401,7 @@ namespace plan
     }
     else if (n == "class")
     {
-      if (m.unit != 0 || m.classes.size() >= 4)
+      if (m.unit != 0 || m.classes.size() >= (op.arg(4) ? 7u : 4u))
         return;
       ClassD c;
       int id = static_cast<int>(m.classes.size());
@@ -417,6 +417,15 @@ namespace plan
       if (ofc >= 2 && !m.classes[ofc - 2].is_sv)
         c.ofield_class = static_cast<int>(ofc) - 2;
       c.ofield_twice = c.ofield_class >= 0 && (op.arg(3) & 1);
+      if (op.arg(4) > 0)
+      { // a second base class: only among classes which have no fields at all
+        int s2 = static_cast<int>(modn(op.arg(4) - 1, m.classes.size()));
+        c.rfields.clear();
+        c.ofield_class = -1;
+        c.ofield_twice = false;
+        if (s2 != c.super && m.fieldless(s2) && m.fieldless(c.super) && !m.is_subclass(s2, c.super) && !m.is_subclass(c.super, s2))
+          c.super2 = s2;
+      }
       m.classes.push_back(c);
     }
     else if (n == "inst")
